@@ -73,6 +73,10 @@ def gen_joint(rng, length, name):
                 else:
                     call = {"k": "done", "code": code, "mdn": C.tx(""), "diag": C.tx(""), **base}
                     final = True
+            elif rng.random() < 0.06:
+                # designed termination: the server answers with the notice of disconnection (and closes)
+                call = {"k": "extendedResponse", "name": C.tx(NOTICE), "value": None, "code": 52, "mdn": C.tx(""), "diag": C.tx(""), **base}
+                final = True
             else:
                 call = {"k": "extendedResponse", "name": rng.choice([None, C.tx("1.2.3")]), "value": rng.choice([None, "01"]), "code": code,
                         "mdn": C.tx(""), "diag": C.tx(""), **base}
@@ -150,7 +154,8 @@ def run(ctx):
         for idx, dst, o in log:
             if o["k"] == "ProtocolError":
                 # designed: the batch contained an unbind (to the server) or a notice of disconnection
-                designed = dst == sn and any(m["op"]["k"] == "unbind" for m in sent[cn])
+                designed = (dst == sn and any(m["op"]["k"] == "unbind" for m in sent[cn])) or \
+                    (dst == cn and any(m["op"]["k"] == "extResp" and m["op"].get("name") == C.tx(NOTICE) for m in sent[sn]))
                 if not designed:
                     violations.append({"key": None, "what": "a protocol error occurred in an admissible joint history", "history": reqs[: idx + 1]})
             else:
@@ -167,10 +172,12 @@ def run(ctx):
                 violations.append({"key": None, "what": "all bytes delivered but not every sent message was received", "history": reqs})
         # (3) agreement at quiescence
         quiescent = not pipe[cn] and not pipe[sn] and not getattr(c, '_outgoing_buffer', b'') and not getattr(s, '_outgoing_buffer', b'')
-        if quiescent and c.state.name != "CLOSED" and s.state.name != "CLOSED":
+        if quiescent:
+            # (a designed termination closes both sides once its bytes have arrived: CLOSED must agree with CLOSED as well)
             norm = lambda st: "OPENED" if st == "BEFORE_OPEN" else st
             if norm(c.state.name) != norm(s.state.name):
                 violations.append({"key": None, "what": f"quiescent but states disagree: client {c.state.name}, server {s.state.name}", "history": reqs})
+        if quiescent and c.state.name != "CLOSED" and s.state.name != "CLOSED":
             if hasattr(c, '_outstanding_requests') and set(c._outstanding_requests) != set(s._outstanding_requests):
                 violations.append({"key": None, "what": "quiescent but the two sides disagree on which operations are in progress", "history": reqs})
             hist["quiescent-end"] += 1
